@@ -383,7 +383,9 @@ def rule_protoscope(chk, prog, tier):
                 nxt(i2, a, e); return None
             def peek(i2, a, e):
                 k, v = stream[min(st['i'] + 1, len(stream) - 1)]
-                return int(ev(prog, k) == a[0]) if k not in ('PARAM', 'LEN') else 0
+                if k not in ('PARAM', 'LEN') and ev(prog, k) == a[0]:
+                    st['i'] += 2; load(); return 1      # pp.c:peek() consumes both tokens on a match
+                return 0
             def mkscope(i2, a, e):
                 o = Obj('scope', 'heap'); o.f[('parent',)] = a[0]
                 o.pidx = stream[st['i']][1] if stream[st['i']][0] == 'PARAM' else None
